@@ -32,7 +32,7 @@ Qed.
 (* while (end > begin && path[begin] == path[end]) --end; *)
 Lemma rdp_shrink_ok (p : path) : forall fuel begin end_,
   begin <= end_ -> end_ < length p -> end_ - begin < fuel ->
-  exists e', rdp_shrink fuel p begin end_ = Ok e' /\ begin <= e' <= end_ /\
+  exists e', rdp_shrink pt pt_eqb fuel p begin end_ = Ok e' /\ begin <= e' <= end_ /\
              forall i, e' < i <= end_ -> nth_error p i = nth_error p begin.
 Proof.
   induction fuel as [|fuel IH]; intros begin end_ Hbe He Hf; [lia|].
@@ -56,7 +56,7 @@ Section Rdp.
   Variable leD : D -> D -> bool.
   Variable dzero : D.
 
-  Theorem rdp_subseq p e r : rdp_gen D d2 leD dzero p e = Ok r -> sublist r p.
+  Theorem rdp_subseq p e r : rdp_gen pt pt_eqb D d2 leD dzero p e = Ok r -> sublist r p.
   Proof.
     unfold rdp_gen. destruct (length p <? 5); intros H.
     - inversion H. apply sublist_refl.
@@ -73,7 +73,7 @@ Section Rdp.
 
   Lemma rdp_scan_ok begin end_ : begin < length p -> end_ < length p ->
     forall n i idx m, n = 0 \/ i + n <= end_ ->
-    exists idx' m', rdp_scan D d2 leD n i p begin end_ idx m = Ok (idx', m') /\
+    exists idx' m', rdp_scan pt D d2 leD n i p begin end_ idx m = Ok (idx', m') /\
                     ((idx' = idx /\ m' = m) \/ i <= idx' < i + n).
   Proof.
     intros Hb He. induction n as [|n IH]; intros i idx m Hn; cbn [rdp_scan].
@@ -90,7 +90,7 @@ Section Rdp.
 
   Lemma rdp_ok : forall fuel begin end_ fl,
     begin <= end_ -> end_ < length p -> length fl = length p -> end_ - begin < fuel -> R fl ->
-    exists fl', rdp D d2 leD dzero fuel p begin end_ eps fl = Ok fl' /\ length fl' = length p /\ R fl'.
+    exists fl', rdp pt pt_eqb D d2 leD dzero fuel p begin end_ eps fl = Ok fl' /\ length fl' = length p /\ R fl'.
   Proof.
     induction fuel as [|fuel IH]; intros begin end_ fl Hbe He Hl Hf HR; [lia|].
     cbn [rdp].
@@ -107,7 +107,7 @@ Section Rdp.
     destruct (upd_lt fl1 idx true ltac:(lia)) as [fl2 Hu2]. rewrite Hu2. cbn [bind].
     assert (Hl2 : length fl2 = length p) by (rewrite (upd_length _ _ _ _ Hu2); exact H3).
     assert (HR2 : R fl2) by (eapply R_set; eassumption).
-    assert (Hleft : exists fl3, (if begin + 1 <? idx then rdp D d2 leD dzero fuel p begin idx eps fl2 else Ok fl2) = Ok fl3 /\
+    assert (Hleft : exists fl3, (if begin + 1 <? idx then rdp pt pt_eqb D d2 leD dzero fuel p begin idx eps fl2 else Ok fl2) = Ok fl3 /\
                                 length fl3 = length p /\ R fl3).
     { destruct (begin + 1 <? idx); [|eauto]. apply IH; try lia; assumption. }
     destruct Hleft as (fl3 & -> & Hl3 & HR3). cbn [bind].
@@ -127,7 +127,7 @@ Section RdpThm.
   Lemma rdp_flags_ok p (R : list bool -> Prop) : 5 <= length p ->
     (forall fl i fl', upd fl i true = Ok fl' -> R fl -> R fl') ->
     (forall fl, length fl = length p -> flagged fl 0 -> flagged fl (length p - 1) -> R fl) ->
-    exists fl, rdp_flags D d2 leD dzero p eps = Ok fl /\ length fl = length p /\ R fl.
+    exists fl, rdp_flags pt pt_eqb D d2 leD dzero p eps = Ok fl /\ length fl = length p /\ R fl.
   Proof.
     intros Hlen R1 R0. unfold rdp_flags.
     destruct (upd_lt (repeat false (length p)) 0 true ltac:(rewrite repeat_length; lia)) as [f1 Hu1].
@@ -142,7 +142,7 @@ Section RdpThm.
   Qed.
 
   (* no out-of-bounds access and no fuel exhaustion (recursion depth <= len) when 0 <= epsilon^2 *)
-  Theorem rdp_safe p : exists r, rdp_gen D d2 leD dzero p eps = Ok r.
+  Theorem rdp_safe p : exists r, rdp_gen pt pt_eqb D d2 leD dzero p eps = Ok r.
   Proof.
     unfold rdp_gen. destruct (length p <? 5) eqn:E; [eauto|]. apply Nat.ltb_ge in E.
     destruct (rdp_flags_ok p (fun _ => True) E) as (fl & Hf & Hl & _); auto.
@@ -158,7 +158,7 @@ Section RdpThm.
 
   (* both end vertices are kept, for every path *)
   Theorem rdp_keeps_ends p :
-    exists r, rdp_gen D d2 leD dzero p eps = Ok r /\ keeps_ends r p = true.
+    exists r, rdp_gen pt pt_eqb D d2 leD dzero p eps = Ok r /\ keeps_ends r p = true.
   Proof.
     unfold rdp_gen. destruct (length p <? 5) eqn:E.
     - exists p. split; [reflexivity|]. destruct p as [|a t]; [reflexivity|].
@@ -242,7 +242,7 @@ Section RdpBound.
   (* the scan: the final maximum dominates every distance of the range *)
   Lemma rdp_scan_bound b e : b < length p -> e < length p ->
     forall n i idx m, n = 0 \/ i + n <= e -> leD m m = true ->
-    exists idx' m', rdp_scan D d2 leD n i p b e idx m = Ok (idx', m') /\
+    exists idx' m', rdp_scan pt D d2 leD n i p b e idx m = Ok (idx', m') /\
       leD m m' = true /\ leD m' m' = true /\
       (forall j, i <= j < i + n -> leD (d2 (pn j) (pn b) (pn e)) m' = true) /\
       ((idx' = idx /\ m' = m) \/ i <= idx' < i + n).
@@ -274,7 +274,7 @@ Section RdpBound.
   Lemma rdp_cov : forall fuel b e fl,
     b <= e -> e < length p -> length fl = length p -> e - b < fuel ->
     flagged fl b -> flagged fl e -> (forall i, b < i < e -> unflagged fl i) ->
-    exists fl', rdp D d2 leD dzero fuel p b e eps fl = Ok fl' /\ length fl' = length p /\
+    exists fl', rdp pt pt_eqb D d2 leD dzero fuel p b e eps fl = Ok fl' /\ length fl' = length p /\
       (forall i, i <= b \/ e <= i -> nth_error fl' i = nth_error fl i) /\ covered fl' b e.
   Proof.
     induction fuel as [|fuel IH]; intros b e fl Hbe He Hl Hf Hfb Hfe Hun; [lia|].
@@ -317,7 +317,7 @@ Section RdpBound.
       assert (Hframe2 : forall i, i <> idx -> nth_error fl2 i = nth_error fl1 i).
       { intros i Hi. eapply upd_nth_other; eassumption. }
       assert (Hleft : exists fl3,
-        (if b + 1 <? idx then rdp D d2 leD dzero fuel p b idx eps fl2 else Ok fl2) = Ok fl3 /\
+        (if b + 1 <? idx then rdp pt pt_eqb D d2 leD dzero fuel p b idx eps fl2 else Ok fl2) = Ok fl3 /\
         length fl3 = length p /\ (forall i, i <= b \/ idx <= i -> nth_error fl3 i = nth_error fl2 i) /\
         covered fl3 b idx).
       { destruct (b + 1 <? idx) eqn:E.
@@ -332,7 +332,7 @@ Section RdpBound.
       assert (Hfi3 : flagged fl3 idx) by (unfold flagged; rewrite Hframe3 by lia; exact Hfi2).
       assert (Hfe3 : flagged fl3 e1) by (unfold flagged; rewrite Hframe3, Hframe2 by lia; exact Hfe1).
       assert (Hright : exists fl4,
-        (if idx <? e1 - 1 then rdp D d2 leD dzero fuel p idx e1 eps fl3 else Ok fl3) = Ok fl4 /\
+        (if idx <? e1 - 1 then rdp pt pt_eqb D d2 leD dzero fuel p idx e1 eps fl3 else Ok fl3) = Ok fl4 /\
         length fl4 = length p /\ (forall i, i <= idx \/ e1 <= i -> nth_error fl4 i = nth_error fl3 i) /\
         covered fl4 idx e1).
       { destruct (idx <? e1 - 1) eqn:E.
@@ -349,7 +349,7 @@ Section RdpBound.
   Qed.
 
   Lemma rdp_flags_cov : 5 <= length p ->
-    exists fl, rdp_flags D d2 leD dzero p eps = Ok fl /\ length fl = length p /\ covered fl 0 (length p - 1).
+    exists fl, rdp_flags pt pt_eqb D d2 leD dzero p eps = Ok fl /\ length fl = length p /\ covered fl 0 (length p - 1).
   Proof.
     intros Hlen. unfold rdp_flags.
     destruct (upd_lt (repeat false (length p)) 0 true ltac:(rewrite repeat_length; lia)) as [f1 Hu1].
@@ -377,7 +377,7 @@ Section RdpBound.
 
   Lemma bad_walk fl : length fl = length p ->
     forall k i a b, length p - i = k -> a < i -> i <= b -> seg_ok fl a b -> covered fl b (length p - 1) ->
-    rdp_bad_aux D d2 leD i (skipn i p) (skipn i fl) (Some (pn a)) (pend a i) eps = [].
+    rdp_bad_aux pt D d2 leD i (skipn i p) (skipn i fl) (Some (pn a)) (pend a i) eps = [].
   Proof.
     intros Hl. induction k as [k IH] using lt_wf_ind. intros i a b Hk Hai Hib Hseg Hcov.
     pose proof Hseg as (Hab & Hbl & Hfa & Hfb & Hint).
@@ -401,7 +401,7 @@ Section RdpBound.
   Qed.
 
   Theorem rdp_bound_gen fl : 5 <= length p ->
-    rdp_flags D d2 leD dzero p eps = Ok fl -> rdp_bad D d2 leD p fl eps = [].
+    rdp_flags pt pt_eqb D d2 leD dzero p eps = Ok fl -> rdp_bad pt D d2 leD p fl eps = [].
   Proof.
     intros Hlen Hfl. destruct (rdp_flags_cov Hlen) as (fl0 & H1 & Hl & Hcov).
     rewrite Hfl in H1. inversion H1; subst fl0. clear H1.
@@ -418,7 +418,7 @@ End RdpBound.
 
 (* paths of fewer than 5 points are returned unchanged: nothing is removed *)
 Lemma rdp_bad_all_true D d2 leD (eps : D) : forall l i lastk,
-  rdp_bad_aux D d2 leD i l (repeat true (length l)) lastk [] eps = [].
+  rdp_bad_aux pt D d2 leD i l (repeat true (length l)) lastk [] eps = [].
 Proof.
   induction l as [|x l IH]; intros i lastk; [reflexivity|].
   cbn [length repeat rdp_bad_aux]. destruct lastk; cbn [map filter app]; apply IH.
